@@ -226,6 +226,11 @@ pub struct CCase {
     /// task, interleaved with the clients (it is a thread of its own in the server)
     #[serde(default)]
     pub snapshot: Option<bool>,
+    /// the state the concurrent snapshot meets: key m was stored, removed and its tombstone stored (it is a tombstone with
+    /// a place on disk), six other keys were stored and have been rewritten since (the snapshot has work to do before and
+    /// after m). After the tasks a further snapshot completes alone, the node restarts and must hold what it held.
+    #[serde(default)]
+    pub on_disk_prelude: bool,
 }
 
 const CKEYS: [&str; 2] = ["n", "m"];
@@ -242,8 +247,9 @@ fn cop_strategy() -> impl Strategy<Value = COp> {
 }
 
 pub fn ccase_strategy() -> impl Strategy<Value = CCase> {
-    (prop::collection::vec(prop::collection::vec(cop_strategy(), 1..4), 2..4), prop::collection::vec(prop_oneof![3 => Just(0u16), 2 => any::<u16>()], 0..40)).prop_map(|(clients, schedule)| CCase { clients, schedule, snapshot: None })
+    (prop::collection::vec(prop::collection::vec(cop_strategy(), 1..4), 2..4), prop::collection::vec(prop_oneof![3 => Just(0u16), 2 => any::<u16>()], 0..40)).prop_map(|(clients, schedule)| CCase { clients, schedule, snapshot: None, on_disk_prelude: false })
         .prop_flat_map(|c| prop_oneof![2 => Just(None), 1 => Just(Some(false)), 1 => Just(Some(true))].prop_map(move |s| CCase { snapshot: s, ..c.clone() }))
+        .prop_flat_map(|c| prop::bool::weighted(0.5).prop_map(move |p| CCase { on_disk_prelude: p && c.snapshot.is_some(), ..c.clone() }))
 }
 
 /// one completed call
@@ -419,6 +425,23 @@ pub fn run_conc(ctx: &Ctx, case: &CCase) -> Result<Outcome, String> {
     admin.send(&node, "create-db d tok");
     admin.send(&node, "use-db d tok");
     admin.send(&node, "set n 10");
+    if case.on_disk_prelude {
+        admin.send(&node, "set m stored");
+        for i in 0..6 {
+            admin.send(&node, &format!("set f{} stored", i));
+        }
+        admin.send(&node, "snapshot false");
+        node.pump();
+        node.snapshot_tick();
+        admin.send(&node, "remove m");
+        admin.send(&node, "snapshot false");
+        node.pump();
+        node.snapshot_tick();
+        for i in 0..6 {
+            admin.send(&node, &format!("set f{} rewritten", i));
+        }
+        admin.drain();
+    }
     // a passive watcher that records the version every write produced
     let mut watcher = Session::new();
     watcher.send(&node, "use-db d tok");
@@ -544,9 +567,43 @@ pub fn run_conc(ctx: &Ctx, case: &CCase) -> Result<Outcome, String> {
             }
         }
     }
-    drop(node);
+    let mut durability_judged = false;
+    if fail.is_none() && case.on_disk_prelude && case.snapshot.is_some() {
+        // a further snapshot completes with nobody writing, then the node is started again: C06's promise for a snapshot
+        // that ran while clients were writing
+        use std::panic::{catch_unwind, AssertUnwindSafe};
+        admin.send(&node, "snapshot false");
+        node.pump();
+        let held = |n: &Node| -> std::collections::BTreeMap<String, (String, i32)> { n.dump_db("d").unwrap_or_default().into_iter().filter(|(k, v)| !v.2 && !k.starts_with('$')).map(|(k, v)| (k, (v.0, v.1))).collect() };
+        let tick = catch_unwind(AssertUnwindSafe(|| node.snapshot_tick()));
+        let before = held(&node);
+        drop(admin);
+        drop(watcher);
+        drop(node);
+        durability_judged = true;
+        if let Err(e) = tick {
+            fail = Some(("C02|after-writes-during-a-snapshot|next-snapshot-panics".into(), format!("the snapshot after the concurrent one panicked: {}; trace {:?}", crate::node::panic_text(e), info.trace)));
+        } else {
+            match crate::node::probe_boot(&dir).map_err(|e| e.to_string()).and_then(|_| catch_unwind(AssertUnwindSafe(|| Node::boot_single(&dir))).map_err(|e| crate::node::panic_text(e))) {
+                Err(e) => fail = Some(("C02|after-writes-during-a-snapshot|node-does-not-start".into(), format!("after the snapshot that completed alone the node does not start: {}; calls {}; trace {:?}", e, describe(&calls), info.trace))),
+                Ok(n2) => {
+                    let after = held(&n2);
+                    if after != before {
+                        let diff: Vec<String> = before.keys().chain(after.keys()).filter(|k| before.get(*k) != after.get(*k)).map(|k| format!("{}: {:?} -> {:?}", k, before.get(k), after.get(k))).collect();
+                        fail = Some(("C02|after-writes-during-a-snapshot|restart-differs".into(), format!("held at the last (completed, undisturbed) snapshot vs loaded after the restart: {:?}; calls {}; trace {:?}", diff, describe(&calls), info.trace)));
+                    }
+                    drop(n2);
+                }
+            }
+        }
+    } else {
+        drop(node);
+    }
     ctx.drop_dir(&dir);
     let mut out = Outcome::ok(overlapping_writers && info.switches > 0);
+    if durability_judged {
+        out.classes.push("restart-after-a-snapshot-that-ran-among-writers");
+    }
     if overlapping_writers {
         out.classes.push("overlapping-writers-on-one-key");
     }
@@ -686,7 +743,7 @@ pub fn run(ctx: &Ctx, rep: &mut Report) {
     if rep.failures.is_empty() {
         let progs = small_programs();
         let scheds = bounded_schedules(if ctx.quick() { 14 } else { 22 });
-        let cases = progs.into_iter().flat_map(move |p| scheds.clone().into_iter().map(move |s| CCase { clients: p.clone(), schedule: s, snapshot: None }));
+        let cases = progs.into_iter().flat_map(move |p| scheds.clone().into_iter().map(move |s| CCase { clients: p.clone(), schedule: s, snapshot: None, on_disk_prelude: false }));
         enumerate(ctx, rep, "two-clients-all-schedules-with-at-most-2-preemptions", cases, |c| conc_guard(ctx, c));
     }
     if rep.failures.is_empty() {
